@@ -303,3 +303,55 @@ pub fn catch<T>(f: impl FnOnce() -> T + std::panic::UnwindSafe) -> Result<T, Str
 pub fn silence_panics() {
     std::panic::set_hook(Box::new(|_| {}));
 }
+
+// ---------- JSON (must match coq/Base/Json.v) ----------
+use serde_json::Value;
+
+/// a serde_json value as a Gallina term of type Json.json
+pub fn coq_json(v: &Value) -> String {
+    match v {
+        Value::Null => "JNull".into(),
+        Value::Bool(b) => format!("(JBool {})", coq_bool(*b)),
+        Value::Number(n) => {
+            if let Some(i) = n.as_i64() {
+                format!("(JInt {})", coq_z(i as i128))
+            } else if let Some(u) = n.as_u64() {
+                format!("(JInt {})", coq_z(u as i128))
+            } else {
+                format!("(JFloat {})", coq_f64(n.as_f64().unwrap()))
+            }
+        }
+        Value::String(s) => format!("(JStr {})", coq_string(s)),
+        Value::Array(a) => format!("(JArr {})", coq_list(a, coq_json)),
+        Value::Object(m) => format!(
+            "(JObj {})",
+            coq_list(&m.iter().collect::<Vec<_>>(), |(k, v)| format!("({}, {})", coq_string(k), coq_json(v)))
+        ),
+    }
+}
+/// canonical text, as Json.show_json (sorted = false) or Json.show_sorted (sorted = true)
+pub fn show_json(v: &Value, sorted: bool) -> String {
+    match v {
+        Value::Null => "null".into(),
+        Value::Bool(b) => if *b { "true".into() } else { "false".into() },
+        Value::Number(n) => {
+            if let Some(i) = n.as_i64() {
+                i.to_string()
+            } else if let Some(u) = n.as_u64() {
+                u.to_string()
+            } else {
+                format!("f{}", show_f64(n.as_f64().unwrap()))
+            }
+        }
+        Value::String(s) => format!("'{}'", s),
+        Value::Array(a) => format!("[{}]", a.iter().map(|x| show_json(x, sorted)).collect::<Vec<_>>().join(",")),
+        Value::Object(m) => {
+            let mut kvs: Vec<(String, String)> = m.iter().map(|(k, v)| (k.clone(), show_json(v, sorted))).collect();
+            if sorted {
+                // stable sort by key bytes (Coq's String.leb compares ascii codes)
+                kvs.sort_by(|a, b| a.0.as_bytes().cmp(b.0.as_bytes()));
+            }
+            format!("{{{}}}", kvs.iter().map(|(k, v)| format!("{}:{}", k, v)).collect::<Vec<_>>().join(","))
+        }
+    }
+}
